@@ -21,6 +21,12 @@ def run(tier, replay=None):
     for n, c in enumerate(cases):
         if n % 5 == 0:        # every fifth layout ends without a final newline (spans unchanged)
             c = dict(c, text=c["text"].rstrip("\n"))
+        if n % 4 == 1:        # every fourth layout has CR LF line endings: every offset moves by the number of line breaks before it
+            t = c["text"]
+            sh = lambda o: o + t[:o].count("\n")
+            c = dict(c, text=t.replace("\n", "\r\n"),
+                     spans=[dict(sp, s=sh(sp["s"]), e=sh(sp["e"]), ops=[dict(o, a=sh(o["a"]), b=sh(o["b"])) for o in sp["ops"]])
+                            for sp in c["spans"]])
         if c["inc"]:
             files = {"main.s": '.include "inc.s"\n', "inc.s": c["text"]}
             g = 2
@@ -65,7 +71,7 @@ def run(tier, replay=None):
         "range ends are inclusive (the CLI prints start..end columns and draws end-start+1 carets)",
         "a label definition's range includes its colon",
         "string/char tokens are checked for consistency only (escapes make value and source differ)",
-        "CR LF files are C07's business (the lexer stops at CR); not generated here",
+        "every fourth layout uses CR LF line endings (offsets shifted accordingly by the driver)",
     ]
     return out.finish(extra_cov={
         "layouts_total": total, "layouts_run": len(cases), "locations_checked": nloc, "tokens_checked": ntok,
